@@ -83,7 +83,7 @@ class C08(DevProp):
             absl = [{"code": code, "min": mn, "max": mx}, {"code": agen.ABS_Y, "min": -128, "max": 127}]
             dz = rng.choice([0.0, 0.0, 0.1])
             cfg = agen.base_cfg([an, other], defdz=[{"sub": "", "bits": str(bits(dz))}], actions=[{"code": c, "action": n_} for n_, c in ACT.items()],
-                                channel=rng.randint(1, 16), octave=rng.choice([0, 0, 1, -1, 5, 10, -10, 11, -11, 12, -12, 17]), semitone=rng.choice([0, 0, 3, 9, -9]))
+                                cmode=devgen.CMODES[(ci // 5) % 4], channel=rng.randint(1, 16), octave=rng.choice([0, 0, 1, -1, 5, 10, -10, 11, -11, 12, -12, 17]), semitone=rng.choice([0, 0, 3, 9, -9]))
             if ci % 8 in (3, 7):
                 # the lowest pair the tracker can hold: note 0 on the first channel (index 0) - a zero value that must not be mistaken for
                 # "nothing tracked"; reached directly or through transposition
@@ -114,6 +114,26 @@ class C08(DevProp):
                         ev.append(a(agen.ABS_Y, rng.choice([-128, 0, 127, 60, -60])))
             ev += [a(code, zr["Mid"][0]), a(agen.ABS_Y, 0)]
             cases.append({"cfg": cfg, "abs": absl, "events": ev, "tag": kind + ("-flip" if flip else "") + ("" if with_neg else "-noneg")})
+        # two sources on one pitch: two emulating axes whose notes coincide only after a transposition between the deflections, and an
+        # emulating axis against an ordinary key on the same (channel, pitch) - in every collision mode (the lifecycle of an emulated key is
+        # its own: on at half travel, off on the way back, Note Off = the pair that was sent), every release order
+        HX, HY, KEY = agen.ABS_HAT0X, agen.ABS_HAT0Y, 30
+        for cmode in devgen.CMODES:
+            for order in range(4):
+                ax = agen.analog(HX, "key", note=60, noteneg=57, bidi=True)
+                ay = agen.analog(HY, "key", note=62, noteneg=59, off=0, bidi=True)
+                cfg = agen.base_cfg([ax, ay], keys=[{"sub": "", "code": KEY, "note": 62, "off": 0}], cmode=cmode,
+                                    actions=[{"code": c, "action": n_} for n_, c in ACT.items()], channel=3)
+                absl = [{"code": HX, "min": -1, "max": 1}, {"code": HY, "min": -1, "max": 1}]
+                up2 = [k(61, 1), k(61, 0)] * 2
+                down2 = [k(62, 1), k(62, 0)] * 2
+                rel = [[a(HY, 0), a(HX, 0)], [a(HX, 0), a(HY, 0)]][order % 2]
+                if order < 2:       # axis against axis
+                    ev = [a(HY, 1)] + up2 + [a(HX, 1)] + rel + [a(HX, 1), a(HX, 0)] + down2 + [a(HY, 1), a(HY, 0), a(HX, 1), a(HX, 0)]
+                else:               # key against axis, both orders of engaging
+                    first = [k(KEY, 1), a(HY, 1)] if order == 2 else [a(HY, 1), k(KEY, 1)]
+                    ev = first + [a(HY, 0), k(KEY, 0), a(HY, 1), a(HY, 0), k(KEY, 1), k(KEY, 0)] + first + [k(KEY, 0), a(HY, 0), a(HY, -1), a(HY, 0)]
+                cases.append({"cfg": cfg, "abs": absl, "events": ev, "tag": "two-sources-one-pitch"})
         return cases
 
 
